@@ -155,6 +155,8 @@ def main(argv=None):
     functions = set()
     kf_reproduced = []
     canary_code_errors = []
+    canary_out_of_reach = []
+    n_confirmed = 0
     for r in res:
         for f in r.get('functions') or []:
             functions.add(f)
@@ -184,12 +186,13 @@ def main(argv=None):
                 else:
                     path = write_replay(prop, r, 'bounded-standin-failing-input')
                     viol.append('VIOLATION property=%s replay=%s' % (prop, path))
+                    n_confirmed += 1
             continue
         if r.get('canary'):
             if r['status'] == 'refuted' and (r.get('replay') or {}).get('confirmed'):
                 canaries += 1
             elif r['status'] == 'out-of-reach':
-                pass
+                canary_out_of_reach.append(r['oid'])
             elif r['status'] == 'error' and (r.get('bounded') or {}).get('found'):
                 # the traced real code itself fails on the canary's scenario (natively too): not a vacuity problem of
                 # the checker -- the ordinary obligations on the same code report it
@@ -226,6 +229,7 @@ def main(argv=None):
             kind = 'refuted+replayed' if r['status'] == 'refuted' and (r.get('replay') or {}).get('confirmed') else 'bounded-standin-failing-input'
             path = write_replay(prop, r, kind)
             viol.append('VIOLATION property=%s replay=%s' % (prop, path))
+            n_confirmed += 1
             continue
         in_base = baseline.get(r['oid'], {}).get('status') == 'proved'
         if in_base:
@@ -259,7 +263,7 @@ def main(argv=None):
     for line in viol:
         print(line)
     wall = time.time() - t0
-    if canaries == 0 and not a.only and not (canary_code_errors and viol):
+    if canaries == 0 and not a.only and not ((canary_code_errors or canary_out_of_reach) and viol):
         faults.append('no canary was refuted and replayed in this run (vacuity guard)')
         print('CHECKER-FAULT: no canary refuted+replayed')
     if n_obl + len(kf_lines) + len(bounded_runs) == 0:
@@ -297,6 +301,8 @@ def main(argv=None):
     print('slowest jobs: ' + ', '.join('%s %.0fs' % (r['oid'], r.get('wall', 0)) for r in slow))
     print('%s tier=%s obligations=%d discharged=%d leaves=%d jobs=%d known-findings=%d undecided=%d wall=%.1fs'
           % (prop, tier, n_obl, n_dis, n_leaves, len(res), len(kf_lines), len(undecided), wall))
+    if n_confirmed:
+        return 1            # violations with a failing input replayed on the real code stand, whatever else happened
     if faults:
         return 3
     if viol:
